@@ -328,6 +328,20 @@ def r5(ctx: Ctx) -> None:
                     tgt_new.add(e.attr)
                 if v == f"settings['{old}']":
                     tgt_old.add(e.attr)
+        # a key's value is taken exactly when the key is present (presence, not truthiness, decides)
+        for k_ in (new, old):
+            badp = []
+            for p in paths:
+                if p.exit[0] == "raise":
+                    continue
+                ck = {key(strip_ver(c)): pol for c, pol, _ in p.conds}
+                uses = any(key(strip_ver(e.value)) == f"settings['{k_}']" for e in stores(p))
+                present = ck.get(f"('{k_}' in settings)")
+                if uses and present is not True:
+                    badp.append("value used without a presence test")
+                if present is True and not uses and k_ == old and ck.get(f"('{new}' in settings)") is False:
+                    badp.append("key present but ignored")
+            ctx.check(not badp, f, f.node, f"session key {k_} is honoured exactly when it is present", f"'{k_}' in settings decides", "; ".join(sorted(set(badp))) or "presence test")
         ok = len(tgt_new) == 1 and tgt_old == tgt_new
         ctx.check(ok, f, f.node, f"legacy key {old} sets the same parameter as {new}", f"both assign self.{next(iter(tgt_new)) if tgt_new else '?'}", f"{new} -> {sorted(tgt_new)}; {old} -> {sorted(tgt_old)}")
         ctx.check(both_raise >= 1 and both_ok == 0, f, f.node, f"{new} together with {old} is rejected", "raise ValueError", f"{both_raise} rejecting / {both_ok} accepting path(s)")
